@@ -143,11 +143,41 @@ func DistMatrix(al align.Alignment, weights []float64, model DistModel, range1Mi
 	if err = model.InitModel(al, weights, gamma, alpha); err != nil {
 		return
 	}
+	// The ranges are checked before any goroutine is started
+	useranges := range1Min >= 0 && range1Max >= 0 && range2Min >= 0 && range2Max >= 0
+	if useranges {
+		if range1Max >= al.NbSequences() {
+			range1Max = al.NbSequences() - 1
+		}
+		if range1Min > range1Max {
+			err = fmt.Errorf("range 1 min is greater than range 1 max")
+			return
+		}
+		if range2Max >= al.NbSequences() {
+			range2Max = al.NbSequences() - 1
+		}
+		if range2Min > range2Max {
+			err = fmt.Errorf("range 2 min is greater than range 2 max")
+			return
+		}
+	}
+
 	distchan := make(chan seqpairdist, 100)
 
 	// Chan of comparisons that gives infty or <0 distance
 	uncompute := make([]seqpairdist, 0, 100)
 	var mux sync.Mutex
+
+	// First error of the goroutines (sequence producer and distance workers):
+	// written under the mutex, read once all the goroutines are done
+	var goerr error
+	seterr := func(e error) {
+		mux.Lock()
+		if goerr == nil {
+			goerr = e
+		}
+		mux.Unlock()
+	}
 
 	outmatrix = make([][]float64, al.NbSequences())
 	for i := 0; i < al.NbSequences(); i++ {
@@ -157,29 +187,22 @@ func DistMatrix(al align.Alignment, weights []float64, model DistModel, range1Mi
 	go func() {
 		defer close(distchan)
 		var seq1, seq2 []uint8
-		if range1Min >= 0 && range1Max >= 0 && range2Min >= 0 && range2Max >= 0 {
-			if range1Max >= al.NbSequences() {
-				range1Max = al.NbSequences() - 1
-			}
-			if range1Min > range1Max {
-				err = fmt.Errorf("range 1 min is greater than range 1 max")
-				return
-			}
-			if range2Max >= al.NbSequences() {
-				range2Max = al.NbSequences() - 1
-			}
-			if range2Min > range2Max {
-				err = fmt.Errorf("range 2 min is greater than range 2 max")
-				return
-			}
-
+		var serr error
+		if useranges {
 			for i := range1Min; i <= range1Max; i++ {
-				if seq1, err = model.Sequence(i); err != nil {
+				if seq1, serr = model.Sequence(i); serr != nil {
+					seterr(serr)
 					return
 				}
 				for j := range2Min; j <= range2Max; j++ {
+					// If the ranges overlap, (i,j) and (j,i) may both be part of
+					// the comparisons: the pair is computed only once (i<j)
+					if j < i && j >= range1Min && j <= range1Max && i >= range2Min && i <= range2Max {
+						continue
+					}
 					if j != i {
-						if seq2, err = model.Sequence(j); err != nil {
+						if seq2, serr = model.Sequence(j); serr != nil {
+							seterr(serr)
 							return
 						}
 						distchan <- seqpairdist{i, j, seq1, seq2, model, weights}
@@ -188,11 +211,13 @@ func DistMatrix(al align.Alignment, weights []float64, model DistModel, range1Mi
 			}
 		} else {
 			for i := 0; i < al.NbSequences(); i++ {
-				if seq1, err = model.Sequence(i); err != nil {
+				if seq1, serr = model.Sequence(i); serr != nil {
+					seterr(serr)
 					return
 				}
 				for j := i + 1; j < al.NbSequences(); j++ {
-					if seq2, err = model.Sequence(j); err != nil {
+					if seq2, serr = model.Sequence(j); serr != nil {
+						seterr(serr)
 						return
 					}
 					distchan <- seqpairdist{i, j, seq1, seq2, model, weights}
@@ -200,36 +225,47 @@ func DistMatrix(al align.Alignment, weights []float64, model DistModel, range1Mi
 			}
 		}
 	}()
-	if err != nil {
-		return
-	}
 
 	var wg sync.WaitGroup
 	max := 0.0
 	for cpu := 0; cpu < cpus; cpu++ {
 		wg.Add(1)
 		go func() {
+			defer wg.Done()
+			failed := false
 			for sp := range distchan {
+				// After an error, the worker still empties the channel,
+				// otherwise the producer could wait forever
+				if failed {
+					continue
+				}
 				if sp.i == sp.j {
 					outmatrix[sp.i][sp.i] = 0
 				} else {
-					if outmatrix[sp.i][sp.j], err = model.Distance(sp.seq1, sp.seq2, sp.weights); err != nil {
-						return
+					d, derr := model.Distance(sp.seq1, sp.seq2, sp.weights)
+					if derr != nil {
+						seterr(derr)
+						failed = true
+						continue
 					}
-					outmatrix[sp.j][sp.i] = outmatrix[sp.i][sp.j]
+					outmatrix[sp.i][sp.j] = d
+					outmatrix[sp.j][sp.i] = d
 					mux.Lock()
-					if outmatrix[sp.i][sp.j] < 0 || outmatrix[sp.i][sp.j] == math.Inf(1) || outmatrix[sp.i][sp.j] > NT_DIST_OVER {
+					if d < 0 || d == math.Inf(1) || d > NT_DIST_OVER {
 						uncompute = append(uncompute, seqpairdist{sp.i, sp.j, nil, nil, nil, nil})
-					} else if outmatrix[sp.i][sp.j] > max {
-						max = outmatrix[sp.i][sp.j]
+					} else if d > max {
+						max = d
 					}
 					mux.Unlock()
 				}
 			}
-			wg.Done()
 		}()
 	}
 	wg.Wait()
+	// All the workers are done, so the channel is closed and the producer is done too
+	if err = goerr; err != nil {
+		return
+	}
 
 	for _, sp := range uncompute {
 		outmatrix[sp.i][sp.j] = 2 * max
